@@ -42,6 +42,40 @@ def _draw_n(rng, tier):
     return rng.randint(61, 400)
 
 
+def _add_option_variants(rng, client):
+    """Append, for up to two earlier calls, the same call with exactly one literal option changed (a threshold,
+    a count, a flag).  State keyed on the data but not on the option shows as a difference from a pristine process."""
+    cand = []
+    for k, st in enumerate(client['steps']):
+        if st['fn'].startswith('caller.') or st.get('nodup'):
+            continue
+        slots = [('a', i) for i, a in enumerate(st['args']) if _is_literal(a)] + [('k', n_) for n_, a in st['kw'].items() if _is_literal(a)]
+        if slots:
+            cand.append((k, slots))
+    for k, slots in rng.sample(cand, min(len(cand), rng.choice([0, 1, 2]))):
+        st = copy.deepcopy(client['steps'][k])
+        where, key = rng.choice(slots)
+        holder = st['args'] if where == 'a' else st['kw']
+        holder[key] = _vary(rng, holder[key])
+        st['probe'] = True
+        st['variant_of'] = k
+        client['steps'].append(st)
+
+
+def _is_literal(a):
+    return isinstance(a, bool) or (isinstance(a, int) and not isinstance(a, bool)) or (isinstance(a, dict) and 'f' in a)
+
+
+def _vary(rng, a):
+    if isinstance(a, bool):
+        return not a
+    if isinstance(a, int):
+        return max(1, a + rng.choice([-1, 1, 2]))
+    v = unhex(a['f'])
+    w = rng.choice([v * 0.5, v * 2.0, 0.9, 0.1, 0.5]) if v != 0 else 0.1
+    return {'f': fhex(w if w != v else v * 0.75)}
+
+
 def gen_plan(rng, tier='quick', traces=None):
     pool = []
     ncurves = rng.choice([1, 1, 2, 2, 3])
@@ -69,7 +103,7 @@ def gen_plan(rng, tier='quick', traces=None):
             m = len(src)
             a = rng.randrange(1, max(2, m - 1))
             b = rng.randint(a, max(a, m - 2))
-            mode = rng.choice(['scale', 'noise', 'flat'])
+            mode = rng.choice(['scale', 'noise', 'flat', 'ulp'])
             pts = [list(p) for p in src]
             for i in range(a, b + 1):
                 if 0 < i < m - 1:
@@ -77,6 +111,8 @@ def gen_plan(rng, tier='quick', traces=None):
                         pts[i][1] = src[i][1] * 1.5
                     elif mode == 'noise':
                         pts[i][1] = max(src[i][1] + rng.uniform(-0.3, 0.3) * (abs(src[i][1]) + 1.0), 0.0)
+                    elif mode == 'ulp':
+                        pts[i][1] = src[i][1] * (1.0 + rng.choice([1, 2, 5, 40]) * 2.0 ** -40)    # same to ~11 digits
                     else:
                         pts[i][1] = src[a][1]
             fam = 'sibling-of-%d:%s' % (sib, mode)
@@ -144,6 +180,8 @@ def gen_plan(rng, tier='quick', traces=None):
     for _ in range(nclients):
         kind = rng.choice(kinds_enabled) if rng.random() > 0.05 else 'soak'
         clients.append(catalog.CLIENT_KINDS[kind](ctx))
+    for cl in clients:
+        _add_option_variants(rng, cl)
     # the scheduler: interleave at call granularity, with duplicate deliveries
     dup_rate = rng.choice([0.0, 0.05, 0.15, 0.3])
     nxt = [0] * nclients
@@ -176,7 +214,7 @@ def gen_plan(rng, tier='quick', traces=None):
     for v in iso.values():
         v.sort()
     return {'property': 'C20', 'tier': tier, 'pool': pool, 'clients': clients, 'schedule': schedule, 'iso': iso,
-            'poison': rng.random() < 0.8, 'poison_seed': rng.randrange(1 << 30)}
+            'poison': rng.random() < 0.8, 'poison_seed': rng.randrange(1 << 30), 'debug_logging': rng.random() < 0.3}
 
 
 # ----------------------------------------------------------------------------- execution
@@ -508,7 +546,9 @@ def _invoke(fn, args, kw, limit, findings, where, type_only):
         if st == 'diverged':
             return ('div',)
         return ('ok', val)
-    except Exception as e:
+    except BaseException as e:
+        if isinstance(e, (isolate.ChildFailed, MemoryError)) or type(e).__name__ == 'SimBudgetExceeded':
+            raise
         if worlds.link_witness(e):
             site = worlds.innermost_package_frame(e)
             if site is not None:
@@ -698,6 +738,17 @@ def run_sim(plan, stats):
     poison_sites = {}
     if plan.get('poison'):
         worlds.install_poison(plan['poison_seed'], poison_sites)
+    import os as _os
+    from . import core as _core
+    if _core.IMPORT_PID is not None:
+        # the simulated world is "the process that imported the package" (the isolated world runs in forked workers):
+        # code that remembers its importing pid behaves accordingly
+        _os.getpid = lambda: _core.IMPORT_PID
+    clock = worlds.install_clock()
+    if plan.get('debug_logging'):
+        worlds.enable_debug_logging()
+        bump('fault.debug_logging_enabled')
+    clock_rng = random.Random(plan.get('poison_seed', 0) ^ 0x5bd1)
     mon = worlds.Monitor()
     mon.install()
     import sys as _sys
@@ -727,6 +778,9 @@ def run_sim(plan, stats):
             continue
         if not ent.get('dup') and k in results[c]:
             continue
+        if clock is not None and clock_rng.random() < 0.3:
+            clock.jump(clock_rng.choice([61.0, 3700.0, 90000.0, 8.0e5]))      # a minute, an hour, a day, nine days later
+            bump('fault.clock_jump')
         nv = len(mon.violations)
         amb = _ambient()
         o = _call_step(step, objs, results[c], findings, [si, c, k], type_only)
@@ -782,7 +836,7 @@ def run_sim(plan, stats):
         else:
             results[c][k] = o
             encs[c][k] = e
-            if o[0] == 'ok' and _has_array(o[1]) and not step['fn'].startswith('caller.'):
+            if o[0] == 'ok' and (_has_array(o[1]) or isinstance(o[1], (list, dict))) and not step['fn'].startswith('caller.'):
                 live.add((c, k))
         if len(findings) > 30:
             break
@@ -821,6 +875,9 @@ def _ambient():
         'np.geterr': repr(sorted(np.geterr().items())),
         'np.printoptions': repr(sorted((k, repr(v)) for k, v in np.get_printoptions().items())),
         'recursionlimit': _sys.getrecursionlimit(),
+        'logging': repr((__import__('logging').root.manager.disable,
+                         sorted((n_, l_.level) for n_, l_ in __import__('logging').root.manager.loggerDict.items()
+                                if n_.startswith('kneeliverse') and hasattr(l_, 'level')))),
         'cwd': os.getcwd(),
         'files(cwd)': repr(sorted((n, os.path.getsize(os.path.join('.', n)) if os.path.isfile(n) else -1) for n in os.listdir('.')))
         if os.environ.get('KNEESIM_RUNDIR') else '',
@@ -1095,13 +1152,18 @@ class Adapter(object):
                 f = _pkg_attr(q)
                 f = getattr(f, 'py_func', f)
                 try:
-                    params = [(n_, p_.default is not inspect.Parameter.empty) for n_, p_ in inspect.signature(f).parameters.items()
+                    params = [(n_, p_.default is not inspect.Parameter.empty,
+                               '' if p_.annotation is inspect.Parameter.empty else str(getattr(p_.annotation, '__name__', p_.annotation)))
+                              for n_, p_ in inspect.signature(f).parameters.items()
                               if p_.kind in (p_.POSITIONAL_ONLY, p_.POSITIONAL_OR_KEYWORD)]
                 except (TypeError, ValueError):
                     continue
                 extra.append((q, params))
             catalog.EXTRA_CALLS[:] = extra
-            Adapter.extra_calls = [q for q, _ in extra]
+            probe_ctx = catalog.Ctx(random.Random(0), [{'kind': 'curve', 'points': [[0, 0]] * 12}, {'kind': 'idx', 'curve': 0, 'values': [3, 5]},
+                                                        {'kind': 'expected', 'curve': 0, 'points': [[0, 0]] * 2}])
+            Adapter.extra_calls = [q for q, prm in extra if catalog.byname_args(probe_ctx, 0, prm) is not None]
+            Adapter.extra_uncallable = [q for q, prm in extra if catalog.byname_args(probe_ctx, 0, prm) is None]
         except Exception as e:
             Adapter.extra_calls = ['error: %s' % str(e)[:100]]
         a = np.array([[0.0, 1.0], [1.0, 3.0], [2.0, 2.5], [3.0, 2.0]])
@@ -1202,6 +1264,7 @@ class Adapter(object):
                 ok.setdefault(fn, {})[kind] = v
         return {'change_directed_focus': Adapter.focus,
                 'public_functions_called_by_parameter_name': getattr(Adapter, 'extra_calls', []),
+                'public_functions_never_called (no argument recipe)': getattr(Adapter, 'extra_uncallable', []),
                 'functions_reached': {'count': len(reached), 'names': reached},
                 'client_call_outcomes': {fn: ok[fn] for fn in sorted(ok)},
                 'poisoned_allocations': {k[7:]: v for k, v in sorted(st.items()) if k.startswith('poison.')},
